@@ -246,6 +246,7 @@ func parseType(remoteType IntrospectionQueryFullType) *ast.Definition {
 			definition.EnumValues = append(definition.EnumValues, &ast.EnumValueDefinition{
 				Name:        value.Name,
 				Description: value.Description,
+				Directives:  deprecatedDirective(value.IsDeprecated, value.DeprecationReason),
 			})
 		}
 	}
@@ -260,6 +261,7 @@ func parseType(remoteType IntrospectionQueryFullType) *ast.Definition {
 			Type:        parseTypeRef(&field.Type),
 			Description: field.Description,
 			Arguments:   parseArgList(field.Args),
+			Directives:  deprecatedDirective(field.IsDeprecated, field.DeprecationReason),
 		})
 	}
 
@@ -271,6 +273,22 @@ func parseType(remoteType IntrospectionQueryFullType) *ast.Definition {
 	definition.Fields = fields
 
 	return definition
+}
+
+// deprecatedDirective rebuilds @deprecated from the isDeprecated / deprecationReason pair
+func deprecatedDirective(isDeprecated bool, reason *string) ast.DirectiveList {
+	if !isDeprecated {
+		return nil
+	}
+	d := &ast.Directive{Name: "deprecated", Position: &ast.Position{}}
+	if reason != nil {
+		d.Arguments = ast.ArgumentList{{
+			Name:     "reason",
+			Position: &ast.Position{},
+			Value:    &ast.Value{Raw: *reason, Kind: ast.StringValue, Position: &ast.Position{}},
+		}}
+	}
+	return ast.DirectiveList{d}
 }
 
 func parseInputField(field IntrospectionInputValue) *ast.FieldDefinition {
@@ -436,7 +454,7 @@ type IntrospectionQueryFullTypeField struct {
 	Args              []IntrospectionInputValue `json:"args"`
 	Type              IntrospectionTypeRef      `json:"type"`
 	IsDeprecated      bool                      `json:"isDeprecated"`
-	DeprecationReason string                    `json:"deprecationReason"`
+	DeprecationReason *string                   `json:"deprecationReason"`
 }
 
 type IntrospectionQueryFullType struct {
@@ -451,10 +469,10 @@ type IntrospectionQueryFullType struct {
 }
 
 type IntrospectionQueryEnumDefinition struct {
-	Name              string `json:"name"`
-	Description       string `json:"description"`
-	IsDeprecated      bool   `json:"isDeprecated"`
-	DeprecationReason string `json:"deprecationReason"`
+	Name              string  `json:"name"`
+	Description       string  `json:"description"`
+	IsDeprecated      bool    `json:"isDeprecated"`
+	DeprecationReason *string `json:"deprecationReason"`
 }
 
 type IntrospectionInputValue struct {
